@@ -2,7 +2,11 @@
 
 package type3
 
-import "sort"
+import (
+	"sort"
+
+	hpke "github.com/cisco/go-hpke"
+)
 
 // Hooks for the /verif correspondence harness. Compiled only with -tags verif; they add
 // exported aliases of unexported helpers and read-only accessors, and change no behaviour.
@@ -50,3 +54,17 @@ func (s *ClientState) VerifSnapshot() (originIndices, clientIndices [][2]string)
 }
 
 func (s RateLimitedTokenRequestState) VerifEncapEnc() []byte { return s.encapEnc }
+
+// VerifHPKEOpen opens an HPKE ciphertext under the private name key with the given associated
+// data and returns the plaintext and the exported response secret (oracle for the harness).
+func (k PrivateEncapKey) VerifHPKEOpen(enc, aad, ct []byte) ([]byte, []byte, error) {
+	context, err := hpke.SetupBaseR(k.suite, k.privateKey, enc, []byte("TokenRequest"))
+	if err != nil {
+		return nil, nil, err
+	}
+	pt, err := context.Open(aad, ct)
+	if err != nil {
+		return nil, nil, err
+	}
+	return pt, context.Export([]byte("TokenResponse"), k.suite.AEAD.KeySize()), nil
+}
